@@ -57,7 +57,10 @@ def gen_ops(rng):
         elif k < 0.75:
             ops.append(("all",))
         else:
-            ops.append(("alln", rng.choice([0, 1, 2, 3, 5, 100])))
+            # counts far beyond the file (the answer is "what remains") at and around every power of two a narrower
+            # integer type would wrap at
+            ops.append(("alln", rng.choice([0, 1, 2, 3, 5, 100, 255, 256, 257, 65535, 65536, 65537, 65536 + rng.randint(0, 9), 1 << 31, (1 << 32) + rng.randint(0, 5),
+                                            (1 << 32) - 1, (1 << 63) - 1, (1 << 16) * rng.randint(1, 40000) + rng.randint(0, 4)])))
     return ops
 
 
